@@ -105,7 +105,7 @@ fn case(ctx: &Ctx, bin: &str, dir: &str, subset: u32, use_short: bool, thr: (u32
             std::fs::write(&path, file_bytes(tcs, crlf, final_nl)).unwrap();
             args.push("--file".into());
             args.push("-".into());
-            Some(format!("{path}{}", if final_nl { "\n" } else { "" }).into_bytes())
+            Some(format!("{path}{}", if !final_nl { "" } else if crlf { "\r\n" } else { "\n" }).into_bytes())
         }
     };
     let o = match run_cli(bin, &args, stdin_data.as_deref()) {
